@@ -2,7 +2,7 @@
 """confirm the seeded changes a sub-agent left in /tmp/seed_out/<prop>/<k>/ in the scratch worktree /tmp/seed_<prop>:
 the demo test must PASS on HEAD and FAIL with patch.diff applied; confirmed ones are copied to /verif/seeded/<prop>/<k>/
 (patch.diff, demo.diff, meta.json + confirmation record). Nothing is applied to /repo here.
-usage: tools/seed_confirm.py Cxx [Cyy ...]"""
+usage: tools/seed_confirm.py [--round=2] Cxx [Cyy ...]"""
 import json, os, re, shutil, subprocess, sys
 ROOT = os.path.dirname(os.path.dirname(os.path.abspath(__file__)))
 
@@ -18,9 +18,13 @@ def crate_of(path):
 
 
 def main():
-    for prop in sys.argv[1:]:
-        wt = f"/tmp/seed_{prop}"
-        src = f"/tmp/seed_out/{prop}"
+    args = sys.argv[1:]
+    rnd = ""
+    if args and args[0].startswith("--round="):
+        rnd = args[0].split("=")[1]; args = args[1:]
+    for prop in args:
+        wt = f"/tmp/seed{rnd}_{prop}"
+        src = f"/tmp/seed_out{rnd}/{prop}"
         if not os.path.isdir(src): print(f"{prop}: no output"); continue
         for k in sorted(os.listdir(src)):
             d = os.path.join(src, k)
@@ -57,7 +61,7 @@ def main():
             good = ok_head and fails and compiles
             print(f"{prop}/{k}: {'CONFIRMED' if good else 'NOT CONFIRMED'} head_ok={ok_head} patched_fails={fails} compiles={compiles} :: {meta.get('title', '')[:110]}")
             if good:
-                dst = os.path.join(ROOT, "seeded", prop, k)
+                dst = os.path.join(ROOT, "seeded", prop, (f"r{rnd}_" if rnd else "") + k)
                 os.makedirs(dst, exist_ok=True)
                 for f in ("patch.diff", "demo.diff"):
                     shutil.copy(os.path.join(d, f), os.path.join(dst, f))
